@@ -46,6 +46,18 @@ theorem retainEvs_good (sp : Spoiled) (i : Nat) (keep : List Bool) (k : Nat) (l 
         · trivial
         · exact ih _ e he
 
+theorem drainEvs_good (sp : Spoiled) (i : Nat) (l : List Obj) :
+    ∀ e ∈ drainEvs i l, GoodEv sp e := by
+  induction l with
+  | nil => intro e he; cases he
+  | cons o rest ih =>
+    intro e he
+    simp only [drainEvs, List.mem_cons] at he
+    rcases he with rfl | rfl | he
+    · trivial
+    · trivial
+    · exact ih e he
+
 /-- closes `∀ e ∈ s'.log, e ∈ s.log ∨ GoodEv sp e` when the new events are trivially good -/
 macro "log_trivial" : tactic => `(tactic| (
   intro e he
@@ -221,7 +233,7 @@ theorem stepOp_good {sp : Spoiled} {s s' : State} {i : Nat} {oc : Outcome} {y : 
     simp only at hs
     split at hs
     · cases pc
-      all_goals simp only [stepResize, finishResize, returnResize] at hs
+      all_goals simp only [stepResize, finishResize] at hs
       all_goals repeat' split at hs
       all_goals first
         | (simp at hs; done)
@@ -230,6 +242,14 @@ theorem stepOp_good {sp : Spoiled} {s s' : State} {i : Nat} {oc : Outcome} {y : 
       all_goals first
         | (refine ⟨rfl, ⟨_, rfl, trivial⟩, ?_⟩; log_trivial)
         | (refine ⟨rfl, ⟨_, (ops_set_self hy).symm, trivial⟩, ?_⟩; log_trivial)
+        | (refine ⟨rfl, ⟨_, rfl, trivial⟩, ?_⟩
+           intro e he
+           simp only [State.setOp, State.emit, List.mem_append, List.mem_cons, List.not_mem_nil,
+             or_false] at he
+           rcases he with he | he | he
+           · exact Or.inl he
+           · exact Or.inr (drainEvs_good sp i _ e he)
+           · right; subst he; trivial)
     · simp at hs
   | retain keep =>
     simp only at hs
